@@ -1,0 +1,368 @@
+//! Runtime-verification hooks (cargo feature `mmtk_verif`, off by default).
+//!
+//! This module is only compiled with `--features mmtk_verif`.  It contains
+//!
+//! -   a lock-free multi-producer event ring that instrumented sites in mmtk-core (and the
+//!     binding of the verification harness) append to,
+//! -   failpoints (`fp`) that inject PRNG-chosen delays at instrumented sites, and
+//! -   re-exports / thin wrappers for crate-private items so that an external harness can drive
+//!     them against reference models.
+//!
+//! Nothing in here changes the behaviour of mmtk-core when the log is disabled and no failpoint
+//! is armed.
+
+use std::cell::Cell;
+use std::sync::atomic::{AtomicBool, AtomicU32, AtomicU64, AtomicUsize, Ordering};
+use std::sync::Mutex;
+
+// ---------------------------------------------------------------------------------------------
+// Event log
+// ---------------------------------------------------------------------------------------------
+
+/// One recorded event.  `seq` is the global order in which events were *claimed*.
+#[derive(Clone, Copy, Debug, Default)]
+pub struct Event {
+    /// Global sequence number.
+    pub seq: u64,
+    /// Small integer identifying the emitting thread (assigned on first emit).
+    pub thread: u32,
+    /// Event kind, see the `EV_*` constants.
+    pub kind: u32,
+    /// Payload.
+    pub a: u64,
+    /// Payload.
+    pub b: u64,
+    /// Payload.
+    pub c: u64,
+    /// Payload.
+    pub d: u64,
+}
+
+struct Slot {
+    stamp: AtomicU64,
+    thread: AtomicU32,
+    kind: AtomicU32,
+    a: AtomicU64,
+    b: AtomicU64,
+    c: AtomicU64,
+    d: AtomicU64,
+}
+
+struct Ring {
+    slots: Box<[Slot]>,
+}
+
+static RING: AtomicUsize = AtomicUsize::new(0); // *const Ring, leaked
+static ENABLED: AtomicBool = AtomicBool::new(false);
+static NEXT: AtomicU64 = AtomicU64::new(0);
+static READ: AtomicU64 = AtomicU64::new(0);
+static TRUNCATED: AtomicBool = AtomicBool::new(false);
+static DROPPED: AtomicU64 = AtomicU64::new(0);
+static DRAIN_LOCK: Mutex<()> = Mutex::new(());
+static NEXT_THREAD: AtomicU32 = AtomicU32::new(1);
+
+thread_local! {
+    static THREAD_ID: Cell<u32> = const { Cell::new(0) };
+    static FP_RNG: Cell<u64> = const { Cell::new(0) };
+}
+
+/// Small integer identifying the current thread in the event log.
+pub fn thread_id() -> u32 {
+    THREAD_ID.with(|t| {
+        let v = t.get();
+        if v != 0 {
+            v
+        } else {
+            let n = NEXT_THREAD.fetch_add(1, Ordering::Relaxed);
+            t.set(n);
+            n
+        }
+    })
+}
+
+/// Allocate the ring (`capacity` events) and start recording.
+pub fn enable_log(capacity: usize) {
+    if RING.load(Ordering::Acquire) == 0 {
+        let slots: Vec<Slot> = (0..capacity)
+            .map(|_| Slot {
+                stamp: AtomicU64::new(0),
+                thread: AtomicU32::new(0),
+                kind: AtomicU32::new(0),
+                a: AtomicU64::new(0),
+                b: AtomicU64::new(0),
+                c: AtomicU64::new(0),
+                d: AtomicU64::new(0),
+            })
+            .collect();
+        let ring = Box::leak(Box::new(Ring {
+            slots: slots.into_boxed_slice(),
+        }));
+        RING.store(ring as *const Ring as usize, Ordering::Release);
+    }
+    ENABLED.store(true, Ordering::SeqCst);
+}
+
+/// Is the log recording?
+pub fn log_enabled() -> bool {
+    ENABLED.load(Ordering::Relaxed)
+}
+
+/// Was any event dropped because the ring was full?
+pub fn log_truncated() -> bool {
+    TRUNCATED.load(Ordering::SeqCst)
+}
+
+/// Number of events dropped.
+pub fn log_dropped() -> u64 {
+    DROPPED.load(Ordering::SeqCst)
+}
+
+/// Append an event.  Lock-free; a no-op unless `enable_log` was called.
+pub fn emit(kind: u32, a: u64, b: u64, c: u64, d: u64) {
+    if !ENABLED.load(Ordering::Relaxed) {
+        return;
+    }
+    let ring = RING.load(Ordering::Acquire);
+    if ring == 0 {
+        return;
+    }
+    let ring: &Ring = unsafe { &*(ring as *const Ring) };
+    let cap = ring.slots.len() as u64;
+    let seq = NEXT.fetch_add(1, Ordering::SeqCst);
+    // Wait (bounded) for the reader to free the slot; drop the event if it does not.
+    let mut spins = 0u32;
+    while seq >= READ.load(Ordering::Acquire) + cap {
+        spins += 1;
+        if spins > 2000 {
+            TRUNCATED.store(true, Ordering::SeqCst);
+            DROPPED.fetch_add(1, Ordering::SeqCst);
+            // The reader skips sequence numbers whose slot never gets stamped only through
+            // `truncated`; mark the slot as a dropped one.
+            return;
+        }
+        std::thread::yield_now();
+    }
+    let slot = &ring.slots[(seq % cap) as usize];
+    slot.thread.store(thread_id(), Ordering::Relaxed);
+    slot.kind.store(kind, Ordering::Relaxed);
+    slot.a.store(a, Ordering::Relaxed);
+    slot.b.store(b, Ordering::Relaxed);
+    slot.c.store(c, Ordering::Relaxed);
+    slot.d.store(d, Ordering::Relaxed);
+    slot.stamp.store(seq + 1, Ordering::Release);
+}
+
+/// Take all events recorded so far (in `seq` order).  If the log was truncated the result is
+/// unreliable and the caller must treat log-based verdicts as inconclusive.
+pub fn drain() -> Vec<Event> {
+    let _g = DRAIN_LOCK.lock().unwrap();
+    let ring = RING.load(Ordering::Acquire);
+    if ring == 0 {
+        return vec![];
+    }
+    let ring: &Ring = unsafe { &*(ring as *const Ring) };
+    let cap = ring.slots.len() as u64;
+    let end = NEXT.load(Ordering::SeqCst);
+    let mut out = Vec::new();
+    let mut pos = READ.load(Ordering::Acquire);
+    while pos < end {
+        let slot = &ring.slots[(pos % cap) as usize];
+        let mut spins = 0u64;
+        let mut ok = true;
+        while slot.stamp.load(Ordering::Acquire) != pos + 1 {
+            spins += 1;
+            if TRUNCATED.load(Ordering::SeqCst) && spins > 10_000 {
+                ok = false;
+                break;
+            }
+            if spins > 50_000_000 {
+                // A writer claimed the slot and never published: treat as truncated.
+                TRUNCATED.store(true, Ordering::SeqCst);
+                ok = false;
+                break;
+            }
+            std::hint::spin_loop();
+        }
+        if ok {
+            out.push(Event {
+                seq: pos,
+                thread: slot.thread.load(Ordering::Relaxed),
+                kind: slot.kind.load(Ordering::Relaxed),
+                a: slot.a.load(Ordering::Relaxed),
+                b: slot.b.load(Ordering::Relaxed),
+                c: slot.c.load(Ordering::Relaxed),
+                d: slot.d.load(Ordering::Relaxed),
+            });
+        }
+        pos += 1;
+        READ.store(pos, Ordering::Release);
+    }
+    out
+}
+
+/// Sequence number that the next event will get (monotone "logical clock").
+pub fn current_seq() -> u64 {
+    NEXT.load(Ordering::SeqCst)
+}
+
+/// Recover a `'static` string that was logged as `(ptr, len)`.
+///
+/// # Safety
+/// `(ptr, len)` must come from an event emitted with [`emit_str`]-style payloads.
+pub unsafe fn static_str(ptr: u64, len: u64) -> &'static str {
+    if ptr == 0 {
+        return "";
+    }
+    std::str::from_utf8_unchecked(std::slice::from_raw_parts(ptr as *const u8, len as usize))
+}
+
+// Event kinds -------------------------------------------------------------------------------
+
+/// Worker parked: a=ordinal, b=parked count after, c=worker count.
+pub const EV_PARK: u32 = 1;
+/// Last-parked decision: a=ordinal, b=0 ParkSelf / 1 WakeSelf / 2 WakeAll, c=parked count.
+pub const EV_LAST_PARKED: u32 = 2;
+/// Worker unparked: a=ordinal, b=parked count after.
+pub const EV_UNPARK: u32 = 3;
+/// Worker leaves `park_and_wait` with `WorkerShouldExit`: a=ordinal.
+pub const EV_EXIT_DECISION: u32 = 4;
+/// Goal requested: a=goal (0 Gc, 1 StopForFork, 2 Shutdown), b=newly requested?
+pub const EV_REQUEST: u32 = 5;
+/// Goal becomes current: a=goal.
+pub const EV_GOAL_START: u32 = 6;
+/// Current goal completed: a=goal (u64::MAX if there was none).
+pub const EV_GOAL_DONE: u32 = 7;
+/// Bucket opened: a=stage.  Logged *before* the store.
+pub const EV_BUCKET_OPEN: u32 = 8;
+/// Bucket closed: a=stage.
+pub const EV_BUCKET_CLOSE: u32 = 9;
+/// Bucket enabled/disabled: a=stage, b=enabled.
+pub const EV_BUCKET_ENABLE: u32 = 10;
+/// Packet pushed to a bucket queue: a=stage, b=packet address, c,d=type name. Logged before push.
+pub const EV_ADD: u32 = 11;
+/// Packet pushed to a worker-local queue: a=stage, b=packet address, c,d=type name.
+pub const EV_ADD_LOCAL: u32 = 12;
+/// Packet pushed to a designated queue: a=target ordinal, b=packet address, c,d=type name.
+pub const EV_ADD_DESIGNATED: u32 = 13;
+/// Sentinel set: a=stage, b=packet address, c,d=type name.
+pub const EV_SENTINEL_SET: u32 = 14;
+/// Sentinel moved into its bucket: a=stage, b=packet address, c,d=type name.
+pub const EV_SENTINEL_SCHEDULED: u32 = 15;
+/// Packet about to run: a=ordinal, b=packet address, c,d=type name.  Logged after poll.
+pub const EV_PACKET_START: u32 = 16;
+/// Packet finished: a=ordinal, b=packet address, c,d=type name.
+pub const EV_PACKET_END: u32 = 17;
+/// GC worker thread entered `run`: a=ordinal.
+pub const EV_WORKER_RUN: u32 = 18;
+/// GC worker surrendered its struct: a=ordinal, b=all surrendered?
+pub const EV_SURRENDER: u32 = 19;
+/// Worker threads are being spawned: a=number of workers, b=0 initial / 1 respawn.
+pub const EV_SPAWN: u32 = 20;
+/// GC start (last parked worker responds to a Gc request).
+pub const EV_GC_START: u32 = 21;
+/// GC end (in `on_gc_finished`, before `resume_mutators`): a=concurrent work scheduled?
+pub const EV_GC_END: u32 = 22;
+/// `notify_mutators_paused`.
+pub const EV_MUTATORS_PAUSED: u32 = 23;
+/// Pages granted to a space: a=space name ptr, b=name len, c=start, d=pages.
+pub const EV_GRANT: u32 = 24;
+/// Pages released: a=page-resource kind (0 freelist, 1 block, 2 monotone-reset, 3 region-reset), b=start, c=pages.
+pub const EV_RELEASE: u32 = 25;
+/// First kind number available to the harness' own (binding-side) events.
+pub const EV_USER_BASE: u32 = 1000;
+
+// ---------------------------------------------------------------------------------------------
+// Failpoints
+// ---------------------------------------------------------------------------------------------
+
+/// After a worker polled a packet, before running it.
+pub const FP_AFTER_POLL: usize = 0;
+/// Before a worker parks.
+pub const FP_BEFORE_PARK: usize = 1;
+/// Between winning the forwarding race and publishing the forwarding pointer.
+pub const FP_FORWARD_WINDOW: usize = 2;
+/// In `BlockQueue::pop` between updating the cursor and reading the entry.
+pub const FP_BLOCKQUEUE_POP: usize = 3;
+/// Before/after notifying workers.
+pub const FP_NOTIFY: usize = 4;
+/// In a tracer that lost the forwarding race, before it starts spinning.
+pub const FP_FORWARD_LOSER: usize = 5;
+/// Number of failpoint sites.
+pub const FP_SITES: usize = 8;
+
+static FP_ARMED: [AtomicU32; FP_SITES] = [
+    AtomicU32::new(0),
+    AtomicU32::new(0),
+    AtomicU32::new(0),
+    AtomicU32::new(0),
+    AtomicU32::new(0),
+    AtomicU32::new(0),
+    AtomicU32::new(0),
+    AtomicU32::new(0),
+];
+static FP_SEED: AtomicU64 = AtomicU64::new(0x9E37_79B9_7F4A_7C15);
+static FP_HITS: [AtomicU64; FP_SITES] = [
+    AtomicU64::new(0),
+    AtomicU64::new(0),
+    AtomicU64::new(0),
+    AtomicU64::new(0),
+    AtomicU64::new(0),
+    AtomicU64::new(0),
+    AtomicU64::new(0),
+    AtomicU64::new(0),
+];
+
+/// Arm a failpoint.  `per_mille` is the probability (0..=1000) that a visit perturbs timing.
+pub fn arm_failpoint(site: usize, per_mille: u32) {
+    FP_ARMED[site].store(per_mille, Ordering::SeqCst);
+}
+
+/// Seed the failpoint PRNG.
+pub fn seed_failpoints(seed: u64) {
+    FP_SEED.store(seed | 1, Ordering::SeqCst);
+}
+
+/// How often a failpoint actually perturbed.
+pub fn failpoint_hits(site: usize) -> u64 {
+    FP_HITS[site].load(Ordering::Relaxed)
+}
+
+fn fp_next() -> u64 {
+    FP_RNG.with(|r| {
+        let mut x = r.get();
+        if x == 0 {
+            x = FP_SEED.load(Ordering::Relaxed) ^ ((thread_id() as u64) << 32 | 0x1234_5678);
+        }
+        x ^= x << 13;
+        x ^= x >> 7;
+        x ^= x << 17;
+        r.set(x);
+        x
+    })
+}
+
+/// A failpoint.  Does nothing unless armed.
+pub fn fp(site: usize) {
+    let p = FP_ARMED[site].load(Ordering::Relaxed);
+    if p == 0 {
+        return;
+    }
+    let r = fp_next();
+    if (r % 1000) as u32 >= p {
+        return;
+    }
+    FP_HITS[site].fetch_add(1, Ordering::Relaxed);
+    match (r >> 10) % 4 {
+        0 => std::thread::yield_now(),
+        1 => {
+            for _ in 0..((r >> 16) % 2000) {
+                std::hint::spin_loop();
+            }
+        }
+        2 => std::thread::sleep(std::time::Duration::from_micros((r >> 16) % 50)),
+        _ => {
+            std::thread::yield_now();
+            std::thread::yield_now();
+        }
+    }
+}
